@@ -1,6 +1,6 @@
 #!/bin/bash
 # Confirm a seeded change produced by a sub-agent and run the checks against it.
-#   tools_seed.sh <agent output dir (with patch.diff, seeded_demo.rs, meta.json)> <name, e.g. C06-a> <property ids to check...>
+#   [SEED_SCRATCH=1 [SEED_SLOT=<k>]] tools_seed.sh <agent output dir (with patch.diff, seeded_demo.rs, meta.json)> <name, e.g. C06-a> <property ids to check...>
 # 1. scratch worktree outside /repo and /verif: the patch applies, the workspace test suite still passes
 #    with it, the demonstration fails with it and passes without it;
 # 2. apply the patch to /repo, run the quick checks of the named properties, undo it straight afterwards.
@@ -13,7 +13,7 @@ cp "$SRC/patch.diff" "$OUT/patch.diff"
 cp "$SRC/seeded_demo.rs" "$OUT/seeded_demo.rs" 2>/dev/null
 cp "$SRC/meta.json" "$OUT/agent_meta.json" 2>/dev/null
 WT=/tmp/seedcheck-$NAME
-export CARGO_TARGET_DIR=/tmp/seedcheck-target
+export CARGO_TARGET_DIR=/tmp/seedcheck-target${SEED_SLOT:+-$SEED_SLOT}
 export CARGO_NET_OFFLINE=true
 git -C /repo worktree remove --force "$WT" 2>/dev/null
 git -C /repo worktree add -q --detach "$WT" HEAD || exit 2
@@ -51,11 +51,11 @@ if [ "$APPLIES" = yes ] && [ -n "${SEED_SCRATCH:-}" ]; then
   # Scratch mode: /repo is left alone (a sweep or fuzz campaign may be building from it). A worktree of
   # /repo and a copy of the harness with rewritten path dependencies live under /tmp/seedscratch and are
   # reused between calls (incremental builds); remove the directory when the round is over.
-  S=/tmp/seedscratch
+  S=/tmp/seedscratch${SEED_SLOT:+-$SEED_SLOT}
   mkdir -p "$S/root/evidence" "$S/root/replays"
   [ -d "$S/repo" ] || git -C /repo worktree add -q --detach "$S/repo" HEAD || exit 2
   git -C "$S/repo" checkout -q --detach "$(git -C /repo rev-parse HEAD)"; git -C "$S/repo" checkout -q -- .
-  rsync -a --exclude target --exclude target-fp --exclude '*.log' /verif/harness/ "$S/harness/"
+  rsync -a --delete --exclude target --exclude target-fp --exclude "*.log" "${SEED_HARNESS:-/verif/harness}/" "$S/harness/"
   sed -i "s#/repo#$S/repo#g" "$S/harness/Cargo.toml" "$S/harness/build.rs"
   cp /verif/known_findings.json "$S/root/"; rm -rf "$S/root/regress"; cp -r /verif/regress "$S/root/regress"
   git -C "$S/repo" apply "$OUT/patch.diff"
@@ -66,7 +66,7 @@ if [ "$APPLIES" = yes ] && [ -n "${SEED_SCRATCH:-}" ]; then
       if [ $RC -eq 1 ] && grep -q "^VIOLATION property=$P" "$OUT/check_$P.log"; then DETECTED="$DETECTED $P"; else MISSED="$MISSED $P(rc=$RC)"; fi
     done
   else
-    echo "scratch harness build failed"; tail -5 "$S/build.log" "$S/build-fp.log"; MISSED="$PROPS(build)"
+    echo "scratch harness build failed"; tail -n 5 "$S/build.log" "$S/build-fp.log"; MISSED="$PROPS(build)"
   fi
   git -C "$S/repo" checkout -q -- .
   rm -f "$S/root/replays/"*.json
